@@ -298,6 +298,9 @@ class QuotedString(String):
             else:
                 end = match.end(0)
                 quoted = buf[start:end]
+                if len(unquoted) > cls._MAX_LEN:
+                    # the limit on literals, however the string is spelled
+                    raise NotParseable(buf, b'TOOBIG')
                 return cls(bytes(unquoted), bytes(quoted)), buf[end:]
         raise NotParseable(buf)
 
